@@ -1,4 +1,5 @@
 /* C02 driver: division / pseudo-division / reduction / divisibility.
+ *   multivariate over a prime field Z_p: lp_polynomial_divides / lp_polynomial_div on B = A*Q + R (op pdivides);
  *   multivariate over Z: the public lp_polynomial_* entry points and (for the four remaindering variants)
  *   the internal coefficient_reduce, on the data of public polynomials;
  *   univariate over Z and Z_M: lp_upolynomial_* and the internal upolynomial_dense_div_general.
@@ -207,11 +208,45 @@ int main(void) {
       upolynomial_dense_destruct(&d1); upolynomial_dense_destruct(&r1);
       upolynomial_dense_destruct(&d2); upolynomial_dense_destruct(&r2);
       lp_upolynomial_delete(p); lp_upolynomial_delete(q); rmring(K);
-    } else if (is_op("udivides") && vntok == 4) {
+    } else if (is_op("udivides") && (vntok == 4 || vntok == 5)) {
+      /* udivides M p q [d] : the optional cofactor d (q = d*p in Z_M[x]) is for the model side only */
       lp_int_ring_t* K = mkring(vtok[1]);
       lp_upolynomial_t *p = uparse(K, vtok[2]), *q = uparse(K, vtok[3]);
       printf("%d", lp_upolynomial_divides(p, q) ? 1 : 0);
       lp_upolynomial_delete(p); lp_upolynomial_delete(q); rmring(K);
+    } else if (is_op("umultiple") && vntok == 4) {
+      /* umultiple M p d : the dividend is the product q = p*d computed by the library in Z_M[x]; prints divides(p, q) and q */
+      lp_int_ring_t* K = mkring(vtok[1]);
+      lp_upolynomial_t *p = uparse(K, vtok[2]), *d = uparse(K, vtok[3]);
+      lp_upolynomial_t* q = lp_upolynomial_mul(p, d);
+      printf("%d ", lp_upolynomial_divides(p, q) ? 1 : 0); uprint(q);
+      lp_upolynomial_delete(p); lp_upolynomial_delete(d); lp_upolynomial_delete(q); rmring(K);
+    } else if (is_op("pdivides") && vntok == 6) {
+      /* pdivides p A Q R c : context over the prime field Z_p.  B = A*Q + R is computed by the library in that context;
+         printed: B, divides(A, B), divides(c, B), divides(c*A, B), and for R = 0 (in Z_p) the exact quotient div(B, A)
+         multiplied back (== B) and compared with Q - two digits, "-" otherwise.  All comparisons lp_polynomial_eq. */
+      lp_integer_t M; mpz_init_set_str(&M, vtok[1], 10);
+      lp_int_ring_t* K = lp_int_ring_create(&M, mpz_probab_prime_p(&M, 25) ? 1 : 0);
+      mpz_clear(&M);
+      lp_polynomial_context_t* ctx = lp_polynomial_context_new(K, pio_db, pio_order);
+      PP a = lp_polynomial_new(ctx), q = lp_polynomial_new(ctx), r = lp_polynomial_new(ctx), c = lp_polynomial_new(ctx);
+      pio_parse_ctx(ctx, a, vtok[2]); pio_parse_ctx(ctx, q, vtok[3]); pio_parse_ctx(ctx, r, vtok[4]); pio_parse_ctx(ctx, c, vtok[5]);
+      PP b = lp_polynomial_new(ctx), ca = lp_polynomial_new(ctx);
+      lp_polynomial_mul(b, a, q); lp_polynomial_add(b, b, r);
+      lp_polynomial_mul(ca, c, a);
+      pio_print(b);
+      printf(" %d %d %d ", lp_polynomial_divides(a, b) ? 1 : 0, lp_polynomial_divides(c, b) ? 1 : 0, lp_polynomial_divides(ca, b) ? 1 : 0);
+      if (lp_polynomial_is_zero(r)) {
+        PP d = lp_polynomial_new(ctx), da = lp_polynomial_new(ctx);
+        lp_polynomial_div(d, b, a);
+        lp_polynomial_mul(da, d, a);
+        printf("%d%d", lp_polynomial_eq(da, b) ? 1 : 0, lp_polynomial_eq(d, q) ? 1 : 0);
+        lp_polynomial_delete(d); lp_polynomial_delete(da);
+      } else putchar('-');
+      lp_polynomial_delete(a); lp_polynomial_delete(q); lp_polynomial_delete(r); lp_polynomial_delete(c);
+      lp_polynomial_delete(b); lp_polynomial_delete(ca);
+      lp_polynomial_context_detach(ctx);
+      lp_int_ring_detach(K);
     } else if (is_op("udivc") && vntok == 4) {
       lp_int_ring_t* K = mkring(vtok[1]);
       lp_upolynomial_t* p = uparse(K, vtok[2]);
